@@ -70,7 +70,7 @@ def term_of(c, p):
     m = re.search(r'ctr (\d+)', p['extra'])
     res = dv.coq_list([ls_common.zpairs([(t, v % M64) for t, v in p['results'].get(i, [])]) for i in range(nthr)])
     return '(TC %d %d%%nat %s %s %s %s %d %d)' % (
-        c['c0'], c['budget'],
+        c['c0'], ls_common.fuel_of(c['budget'], p['status']),
         dv.coq_list([dv.coq_list([{'T': 'OTid', 'Y': 'OYield'}[o] for o in pr]) for pr in c['progs']]),
         dv.coq_list([str(x) for x in c['sched']]),
         ls_common.zpairs(p['steps']), res, int(m.group(1)), p['status'])
